@@ -36,6 +36,10 @@ def tasks(tier):
     for n, p in perms:
         t.append((C, "jax_exact", dict(n=n, perm=list(p))))
         t.append((C, "jax_exact", dict(n=n, perm=list(p), deriv=True)))
+    # inputs ON the tie surfaces (repeated pivots at step k): the value is unaffected, the derivative must follow the chosen pivot
+    for n, p, k in [(2, (0, 1), 0), (3, (0, 1, 2), 0), (3, (0, 2, 1), 0), (3, (1, 2, 0), 0), (3, (0, 1, 2), 1), (3, (1, 0, 2), 1), (3, (2, 0, 1), 1)]:
+        t.append((C, "jax_exact", dict(n=n, perm=list(p), tie=k)))
+        t.append((C, "jax_exact", dict(n=n, perm=list(p), tie=k, deriv=True)))
     t.append((C, "jax_exact", dict(n=1)))
     for n, r, p in [(2, 1, (1, 0)), (3, 1, (1, 0, 2)), (3, 2, (0, 2, 1)), (3, 2, (2, 1, 0))]:
         t.append((C, "jax_exact", dict(n=n, rank=r, perm=list(p))))
